@@ -27,8 +27,13 @@ EXPLANATION = (
     'announces "skipping" leaves the iteration/function or yields a tested sentinel, and no `K not in D` warning is followed by '
     'an unguarded D[K]; (R5) include sense: the region string starts with "-" exactly when the include flag is falsy, include is '
     'written in {0,1} and never left to the global line alone; (R6) determinism (no set iteration reaches the text); (R7) the '
-    'serialisers do not mutate the regions. Not decided: decimal formatting within half a unit of the precision; the '
-    'regex-level metadata grammar; fixed-point of parse∘serialise∘parse as a whole.')
+    'serialisers do not mutate the regions; (R8) text and tags: the metadata string the writer builds for a region with a '
+    'text and two tags (string-building term rendered with representative multi-word values) is lexed by the reader\'s own '
+    'regex and delimiter-stripping chain (stdlib re on the source pattern) back to exactly that text and that tag list; the '
+    'raw-metadata merge returns text and tag unchanged for every string (no numeric coercion: symbolic value must be the '
+    'input itself); the region is built with that text parameter / meta text and those tags; one extra instance probes a text '
+    'containing the closing delimiter. Not decided: decimal formatting within half a unit of the precision; texts containing '
+    'quote characters or leading braces; fixed-point of parse∘serialise∘parse as a whole.')
 TRUSTED = ['str.format / f-string semantics', 'SkyCoord.to_string yields "lon lat"', 'Quantity.to_string(unit="deg")',
            're.split on whitespace/commas yields the written tokens in order']
 ASSUMPTIONS = ['the lexers are functions of their token only (their constants are C10.R3)']
@@ -519,6 +524,173 @@ def r7(ctx):
             ctx.ok(fi.qualname.split(':')[1], 'no write reaches the regions being serialised')
 
 
+# ---------------------------------------------------------------- text / tags
+PLACEHOLDERS = {'T': 'Aa Bb', 'G1': 'g1 x', 'G2': 'g2'}
+
+
+def render(t, ph):
+    """concrete text of a string-building term once its opaque string leaves are given placeholder values."""
+    if isinstance(t, Const):
+        return str(t.v)
+    if isinstance(t, Obj) and t.cls == 'str' and t.path in ph:
+        return ph[t.path]
+    if isinstance(t, App) and t.name == 'fstring':
+        return ''.join(render(a, ph) for a in t.args)
+    if isinstance(t, App) and t.name == 'fmt':
+        return render(t.args[0], ph)
+    if isinstance(t, App) and t.name == 'apply' and isinstance(t.args[0], App) and t.args[0].name == 'attr:join' \
+            and isinstance(t.args[1], Tup):
+        return render(t.args[0].args[0], ph).join(render(a, ph) for a in t.args[1].items)
+    raise AnalysisError('C09.R8', 'metadata string', f'string-building term not understood: {show(t, 160)}')
+
+
+def _regex_hooks():
+    import re
+
+    def compile_(ev, a, k):
+        if a and isinstance(a[0], Const) and isinstance(a[0].v, str):
+            return Obj('regex', {'pattern': a[0]}, None)
+        return NotImplemented
+
+    def findall(ev, a, k):
+        base = a[0]
+        if isinstance(base, Obj) and base.cls == 'regex' and len(a) == 2 and isinstance(a[1], Const):
+            out = []
+            for mt in re.findall(base.fields['pattern'].v, a[1].v):
+                out.append(Tup(tuple(Const(x) for x in mt)) if isinstance(mt, tuple) else Const(mt))
+            return Tup(tuple(out), 'list')
+        return NotImplemented
+    return {'re.compile': compile_, 'method:findall': findall}
+
+
+def _meta_writer(ctx):
+    m = ctx.model
+    ser, wfi, meta_fn = ds9.writer_funcs(m)
+    mod = m.modules[ser.module]
+    callees = set()
+    for c in calls_in(ser.node):
+        for f in m.resolve_call(ser, c) or ():
+            if f.module == ser.module and f.qualname not in (wfi.qualname, ser.qualname):
+                callees.add(f.qualname)
+    cands = [f for f in mod.functions.values() if f.qualname in callees]
+    ctx.need(len(cands) == 1, ser.qualname, f'metadata string builder not identified ({[c.qualname for c in cands]})')
+    return meta_fn, cands[0]
+
+
+def r8(ctx):
+    m = ctx.model
+    meta_fn, mkstr = _meta_writer(ctx)
+    par, make, lexers, raw, rmod = ds9.reader_funcs(m)
+    S = lambda n: Obj('str', {}, n)          # noqa: E731
+    T, G1, G2 = S('T'), S('G1'), S('G2')
+    # the reader function that lexes "key=value ..." (holds the metadata regex) and the one merging the raw dicts
+    lex = [f for f in rmod.functions.values()
+           if any((call_name(c) or '') in ('re.compile', 'compile') for c in calls_in(f.node)) and len(f.node.args.args) == 1
+           and any(isinstance(n, ast.Constant) and n.value == 'tag' for n in ast.walk(f.node))]
+    ctx.need(len(lex) == 1, 'ds9 read', 'metadata lexer (regex + tag list) not identified')
+    lex = lex[0]
+    merge = [f for f in rmod.functions.values() if len(f.node.args.args) == 4
+             and sum(1 for c in calls_in(f.node) if (call_name(c) or '').endswith('.update')) >= 3]
+    ctx.need(len(merge) == 1, 'ds9 read', 'raw-metadata merge function not identified')
+    merge = merge[0]
+    cases = [('CirclePixelRegion', 'circle', 'pixel'), ('CircleSkyRegion', 'circle', 'sky'),
+             ('TextPixelRegion', 'text', 'pixel'), ('TextSkyRegion', 'text', 'sky')]
+    for cname, shape, rt in cases:
+        ci = m.cls(cname)
+        construct = f'{cname}: text/tag'
+        ev = Evaluator(m)
+        flds = {'meta': DictV([{'tag': Tup((G1, G2), 'list')}]), 'visual': DictV([{}])}
+        if shape == 'text':
+            flds['text'] = T
+        else:
+            flds['meta'] = DictV([{'text': T, 'tag': Tup((G1, G2), 'list')}])
+        reg = Obj(cname, flds, 'region', ci)
+        d = ev.call(meta_fn, [reg, Const(shape)], {})
+        ctx.need(isinstance(d, DictV) and not d.has_symbolic(), construct, f'writer metadata not a keyed dict: {show(d, 200)}')
+        if not ({'text', 'tag'} <= set(d.keys())):
+            ctx.bad(construct, 'writer-drops', f'the DS9 metadata of a {cname} with text and tags has keys {sorted(d.keys())}',
+                    meta_fn.loc())
+            continue
+        line = render(ev.call(mkstr, [d], {}), PLACEHOLDERS)
+        # (b) the reader's own regex and delimiter stripping, on the writer's text
+        ev2 = Evaluator(m, hooks=_regex_hooks())
+        got = ev2.call(lex, [Const(line)], {})
+        ok = isinstance(got, DictV) and not got.has_symbolic()
+        txt = got.get('text') if ok and 'text' in got.keys() else None
+        tags = got.get('tag') if ok and 'tag' in got.keys() else None
+        tag_vals = [i.v for i in tags.items] if isinstance(tags, Tup) and all(isinstance(i, Const) for i in tags.items) else None
+        if not (isinstance(txt, Const) and txt.v == PLACEHOLDERS['T'] and tag_vals == [PLACEHOLDERS['G1'], PLACEHOLDERS['G2']]):
+            ctx.bad(construct, 'delimiters',
+                    f'the writer emits `{line}`; the reader\'s metadata lexer reads text={show(txt, 60)} tags={tag_vals} '
+                    f'(wanted text={PLACEHOLDERS["T"]!r}, tags {[PLACEHOLDERS["G1"], PLACEHOLDERS["G2"]]})', lex.loc())
+            continue
+        # (c) merging keeps free text as it is, for every string
+        ev3 = Evaluator(m)
+        E = lambda: DictV([{}])           # noqa: E731
+        mg = ev3.call(merge, [E(), E(), E(), DictV([{'text': T, 'tag': Tup((G1, G2), 'list')}])], {})
+        bad = None
+        if not (isinstance(mg, DictV) and not mg.has_symbolic() and {'text', 'tag'} <= set(mg.keys())):
+            bad = f'merged metadata is {show(mg, 200)}'
+        elif not same(mg.get('text'), T):
+            bad = f'text becomes {show(mg.get("text"), 200)}'
+        elif not same(mg.get('tag'), Tup((G1, G2), 'list')):
+            bad = f'tag becomes {show(mg.get("tag"), 200)}'
+        if bad:
+            ctx.bad(construct, 'text-coerced',
+                    f'{merge.qualname.split(":")[1]}: {bad} — a text or tag that looks like a number (text={{123}}, '
+                    'text={1e3}, text={nan}) does not come back as the string that was written', merge.loc())
+            continue
+        # (d) the region is built with that text / those tags
+        hooks = {'re.split': lambda ev_, a, k: Tup((), 'list')}
+        for f in rmod.functions.values():
+            if f.name == '_parse_shape_params':
+                hooks[f.qualname] = lambda ev_, a, k, shape=shape: Tup((Const(shape), Tup((Obj('sp', {}, 'sp'),), 'list')))
+            if f.name == '_define_region_params':
+                hooks[f.qualname] = lambda ev_, a, k: Tup((Obj('POS', {}, 'POS'),), 'list')
+        ctx.need(len(hooks) == 3, 'ds9 read', 'shape-parameter helpers not found')
+        opaque = {f.qualname for f in m.modules['regions.io.ds9.meta'].functions.values() if 'visual' in f.name}
+        ev4 = Evaluator(m, opaque_funcs=opaque, hooks=hooks)
+        raw_meta = DictV([{'text': T, 'tag': Tup((G1, G2), 'list')}])
+        rd = Obj('_RegionData', {'frame': Const('image' if rt == 'pixel' else 'fk5'), 'region_type': Const(rt),
+                                 'shape': Const(shape), 'shape_params': Obj('str', {}, 'shape_params'), 'raw_meta': raw_meta,
+                                 'region_str': Obj('str', {}, 'region_str')}, None, None)
+        out = ev4.run(make, [rd], {})
+        regs = [v for pc, v in out.returns if isinstance(v, Tup) and v.items]
+        ctx.need(len(regs) == 1 and isinstance(regs[0].items[0], Obj), construct, 'reader did not build one region')
+        r = regs[0].items[0]
+        meta = r.fields.get('meta')
+        md = meta.args[0] if isinstance(meta, App) and meta.args and isinstance(meta.args[0], DictV) else meta
+        bad = None
+        if r.cls != cname:
+            bad = f'class {r.cls}'
+        elif not isinstance(md, DictV):
+            bad = f'meta is {show(meta, 120)}'
+        elif 'tag' not in md.keys() or not same(md.get('tag'), Tup((G1, G2), 'list')):
+            bad = 'tags are not the parsed tags'
+        elif shape == 'text' and not same(r.fields.get('text'), T):
+            bad = f'text parameter is {show(r.fields.get("text"), 120)}'
+        elif shape != 'text' and not ('text' in md.keys() and same(md.get('text'), T)):
+            bad = 'meta text is not the parsed text'
+        if bad:
+            ctx.bad(construct, 'reader-binding', f'region built from the parsed metadata: {bad}', make.loc())
+        else:
+            ctx.ok(construct, f'`{line}` -> lexed back, not coerced, bound to the region')
+    # a text that contains the writer's own closing delimiter (DS9 can express it with another delimiter pair)
+    ev = Evaluator(m)
+    reg = Obj('CirclePixelRegion', {'meta': DictV([{'text': T}]), 'visual': DictV([{}])}, 'region', m.cls('CirclePixelRegion'))
+    d = ev.call(meta_fn, [reg, Const('circle')], {})
+    ph = {'T': 'a}b'}
+    line = render(ev.call(mkstr, [d], {}), ph)
+    got = Evaluator(m, hooks=_regex_hooks()).call(lex, [Const(line)], {})
+    txt = got.get('text') if isinstance(got, DictV) and 'text' in got.keys() else None
+    if isinstance(txt, Const) and txt.v == ph['T']:
+        ctx.ok('text delimiters', 'a text containing "}" is written with a delimiter the lexer closes correctly')
+    else:
+        ctx.bad('text delimiters', 'closing-brace-in-text',
+                f'text {ph["T"]!r} is written as `{line}` and lexed back as {show(txt, 40)}: the writer always delimits with '
+                '{...} although DS9 also offers "..." and \'...\'', meta_fn.loc())
+
+
 class _SubCtx:
     """Run a rule of another property, keeping only constructs that satisfy a filter."""
 
@@ -556,4 +728,5 @@ RULES = [
     RuleDef('R5', 'include sense survives (sign, {0,1})', r5, 2),
     RuleDef('R6', 'deterministic output', r6, 1),
     RuleDef('R7', 'serialisers do not mutate the regions', r7, 2),
+    RuleDef('R8', 'text and tags: written delimiters are the ones lexed; free text is never coerced; bound to the region', r8, 5),
 ]
